@@ -12,7 +12,9 @@ ASSUMPTIONS = [
     "invariant is re-checked afterwards, so histories of any length are covered for this hierarchy",
     "wiring styles enumerated: Config discriminator, Annotated field (holder created before any subclass), codec (decoder created "
     "at a chosen point of the history), include_supertypes, variant_tagger_fn, non-mixin dataclasses through the codec",
-    "no-field mode: fixed hierarchy NBase <- NA <- NC, NBase <- NB; which required keys are present and whether NA's constructor "
+    "no-field mode: hierarchy NBase <- NA <- NC, NBase <- NB of mixin or plain dataclasses; the point at which the decoder / holder "
+    "class is created (after 0..3 subclasses exist) and the point of a first call (after 0..3 subclasses, or never) are solver "
+    "variables; which required keys are present and whether NA's constructor "
     "rejects the input (with an exception type of its own) are solver variables; checked: some accepting subclass is returned, the "
     "supertype only when no subclass accepts, SuitableVariantNotFoundError otherwise (order among subclasses is not stated)",
 ]
@@ -39,7 +41,10 @@ def harnesses(tier, seed):
     for name, kw in (("config", "style='config'"), ("config_tagger", "style='config', tagger=True")):
         hs.append(gen.custom_harness("C12", "c12", Schema("step_" + name, "int", ""), "step", "", kw))
     for name, kw in (("config", "style='config'"), ("annotated", "style='annotated'"), ("codec", "style='codec'"),
-                     ("annotated_super", "style='annotated', supertypes=True"), ("codec_super", "style='codec', supertypes=True")):
+                     ("annotated_super", "style='annotated', supertypes=True"), ("codec_super", "style='codec', supertypes=True"),
+                     ("annotated_plain", "style='annotated', mixin=False"), ("codec_plain", "style='codec', mixin=False"),
+                     ("annotated_plain_super", "style='annotated', mixin=False, supertypes=True"),
+                     ("codec_plain_super", "style='codec', mixin=False, supertypes=True")):
         hs.append(gen.custom_harness("C12", "c12", Schema("nofield_" + name, "int", ""), "nofield", "", kw))
     return hs
 
